@@ -20,7 +20,9 @@
               separations, equal to it for a u^3 >= 80, off-diagonal elements monotone in the damping
               parameter and bounded by the undamped ones.
    "induced"  ApplyInducedField: V_k = d E_indu_indu / d(induced dipole_k) = sum_j T_jk mu_j;
-              E_indu_stat = induced dipoles times the static-field accumulators.                    *)
+              E_indu_stat = induced dipoles times the static-field accumulators; the off-diagonal blocks
+              of the DipoleDipoleInteraction operator are the Thole tensor, the operator is symmetric
+              and its product with a dipole vector is the induced field.                   *)
 EXTENDS Multipole, Json
 
 CONSTANTS Tpl,        \* sequence of moment templates [r, q, d, s]
@@ -227,6 +229,10 @@ InRels == FlattenSeq([k \in 1..3 |->
           \o << Rel("induced-energy:exchange", <<1, 1, OII, -1, 5, OII>>),
                 Rel("induced-static-energy", <<1, 1, OIS, 0 - InB.i[1], 1, OV(1), 0 - InB.i[2], 1, OV(2), 0 - InB.i[3], 1, OV(3),
                                                0 - InA.i[1], 5, OV(1), 0 - InA.i[2], 5, OV(2), 0 - InA.i[3], 5, OV(3)>>) >>
+          \o [k \in 1..3 |-> Rel("ddi:multiply=induced-field", <<1, 1, ODm(k), -1, 1, OIV(k)>>)]
+          \o FlattenSeq([n \in 1..9 |-> LET i == Pairs9[n][1]  j == Pairs9[n][2] IN
+                << Rel("ddi:block=thole", <<1, 1, ODa(i, j), -1, 1, OT(i, j)>>),
+                   Rel("ddi:operator-symmetric", <<1, 1, ODb(i, j), -1, 1, ODa(j, i)>>) >>])
 
 \* ---------------------------------------------------------------- theorems and export
 FamSites == IF c.fam = "motion" THEN MoSites ELSE IF c.fam = "exact" THEN <<ExA, ExB>>
